@@ -58,6 +58,7 @@ func (t *EventTimer) Reset(timeout time.Duration) {
 		return
 	}
 
+	verifTimerReset(t, timeout)
 	t.timer.Reset(timeout)
 }
 
